@@ -1,1 +1,24 @@
-//! Hooks for property C01 (empty unless needed).
+//! Hooks for property C01: the TLS certificate verifiers and the endpoint-id <-> TLS name codec.
+use std::sync::Arc;
+
+use iroh_base::EndpointId;
+
+/// The verifier a dialing endpoint applies to the certificate presented by the accepting side.
+pub fn server_cert_verifier() -> Arc<dyn rustls::client::danger::ServerCertVerifier> {
+    crate::tls::verif_verifiers().0
+}
+
+/// The verifier an accepting endpoint applies to the certificate presented by the dialing side.
+pub fn client_cert_verifier() -> Arc<dyn rustls::server::danger::ClientCertVerifier> {
+    crate::tls::verif_verifiers().1
+}
+
+/// `tls::name::encode`
+pub fn name_encode(id: EndpointId) -> String {
+    crate::tls::name::encode(id)
+}
+
+/// `tls::name::decode`
+pub fn name_decode(name: &str) -> Option<EndpointId> {
+    crate::tls::name::decode(name)
+}
